@@ -11,7 +11,7 @@ from checks import common
 
 ID = 'C07'
 LEVEL = 'exploration'
-TIERS = {'quick': 30000, 'thorough': 2500000}
+TIERS = {"quick": 60000, "thorough": 5000000}
 BUDGET = {'quick': 120, 'thorough': 1500}
 RULE = ('seeded plans, two modes. oneshot: descriptor + value + codec, decode(e||t) for every t in {empty, 0000, 00x5, '
         'another encoding, seeded garbage}; evaluations count (e,t) pairs. stream: 1..4 encodings back to back under a seeded '
